@@ -275,8 +275,13 @@ func (c Case) padByteShards() (l []int) {
 	return
 }
 func (c Case) hitsPadByte() bool { return len(c.padByteShards()) > 0 }
+
+// hitsMetaOnly: some shard's metadata (checksum bytes) is damaged and no shard has payload damage that makes the
+// read verify checksums - the recorded class. With a payload-damaged shard in the same read the checksum scan runs
+// and the metadata-damaged shard is rewritten too, so that combination stays in the domain.
 func (c Case) hitsMetaOnly() bool {
-	return c.count(func(d Dmg) bool { return d.Kind == FlipMeta }) > 0
+	return c.count(func(d Dmg) bool { return d.Kind == FlipMeta }) > 0 &&
+		c.count(func(d Dmg) bool { return d.Kind == FlipPayload }) == 0
 }
 
 // normalise moves a generated case out of every class that is LISTED as a known finding
@@ -322,14 +327,6 @@ func normalise(c *Case, rec *stats.Rec) {
 			}
 		}
 	}
-	if c.Mode == "repair" && c.hitsMetaOnly() && stats.Known("C26", slugMetaNoFix) {
-		rec.Exclude(slugMetaNoFix)
-		for i, d := range c.Damage {
-			if d.Kind == FlipMeta {
-				c.Damage[i] = Dmg{Kind: FlipPayload, Off: d.Off % sl, Mask: d.Mask}
-			}
-		}
-	}
 	if c.hitsNilMeta() && stats.Known("C25", slugNilMeta) {
 		rec.Exclude(slugNilMeta)
 		for i, d := range c.Damage {
@@ -346,6 +343,25 @@ func normalise(c *Case, rec *stats.Rec) {
 		rec.Exclude(slugPadByte)
 		for _, i := range c.padByteShards() {
 			c.Damage[i].Off = 1
+		}
+	}
+	if c.Mode == "repair" && stats.Known("C25", slugPadByte) {
+		// the padding-count byte (metadata byte 0) is not covered by the shard's checksum: a flip there is never
+		// noticed on any shard, so it is never repaired either (same recorded class)
+		for i, d := range c.Damage {
+			if d.Kind == FlipMeta && d.Off == 0 {
+				rec.Exclude(slugPadByte)
+				c.Damage[i].Off = 1
+			}
+		}
+	}
+	// last, because the rewrites above can remove the payload damage that made a metadata-damaged shard repairable
+	if c.Mode == "repair" && c.hitsMetaOnly() && stats.Known("C26", slugMetaNoFix) {
+		rec.Exclude(slugMetaNoFix)
+		for i, d := range c.Damage {
+			if d.Kind == FlipMeta {
+				c.Damage[i] = Dmg{Kind: Missing}
+			}
 		}
 	}
 }
